@@ -66,7 +66,7 @@ def ref_class(ev):
 
 
 def sig_of(ev, why):
-    return {"check": "local", "kind": ev.get("kind", "?"), "why": why}
+    return {"check": "local", "kind": ev.get("kind", "?"), "why": why.split(":")[0]}
 
 
 def check(run):
@@ -171,7 +171,7 @@ def check(run):
         "positions are quantised to the lattice u = 360/2^24 degrees (2.39 m); references are lattice points or the listed special floats",
         "the ruler (haversine on the mean sphere, R = 6371008.8 m, in the harness) is trusted: it classifies a reference as in range and measures the error; so are the lattice-to-degree conversion and the f64-to-integer logging (micro-degrees, rounded)",
         "clause 1 is not demanded for surface positions beyond 88.9 deg of latitude: the single 90-degree longitude zone there is narrower than a 45 NM circle, so two positions within range of one reference share one message (no decoder can satisfy the clause); clause 2 is still demanded there",
-        "clause 1 is not demanded where the exact Rlat is within 1e-9 degree of a transition latitude (only 87.0)",
+        "NL(+-87) = 2 as DO-260B A.1.7.2 d defines it (Rlat = 87 exactly is judged like any other point, labelled nl_87_exact when rejected); the float-tie exemption (Rlat within 1e-9 degree of, but not equal to, a transition) is empty on the 2^17 grid",
         "'half a zone' in longitude is half the longitude zone of the message's parity at the returned latitude (NL from the decimal table; the wider zone when the latitude logged in micro-degrees is within 1 micro-degree of a transition); 2 micro-degrees are added for the rounding of the logged values",
         "NLTable.tla is generated from the decimal NL table with exact rational arithmetic and cross-checked against the closed formula of DO-260B A.1.7.2 d at every run",
         "bit assembler and parity by long division in the harness are trusted (validated by C02)",
